@@ -288,12 +288,23 @@ func Compare(a, b Val) (rel Rel, stringRungOpen bool) {
 		}
 	}
 	if a.K == "S" && b.K == "S" {
+		if FoldAmbiguous(a.S, b.S) {
+			// "case-insensitive" is not spelled out for letters whose upper-case mapping and case folding
+			// disagree (dotless i, sharp s, Kelvin sign ...): the relation is open, the laws still apply
+			return RelUnknown, true
+		}
 		return textRel(a.S, b.S), false
 	}
 	if (a.K == "S" || a.K == "I" || a.K == "F") && (b.K == "S" || b.K == "I" || b.K == "F") {
 		return RelUnknown, true
 	}
 	return RelUnknown, false
+}
+
+// FoldAmbiguous: upper-casing and Unicode case folding disagree on whether the two trimmed texts are equal.
+func FoldAmbiguous(a, b string) bool {
+	x, y := trimBlank(a), trimBlank(b)
+	return (strings.ToUpper(x) == strings.ToUpper(y)) != strings.EqualFold(x, y)
 }
 
 func textRel(a, b string) Rel {
